@@ -337,8 +337,8 @@ def runHandler (cfg : Table) (env : Env) (rec : St → Bytes → Except Err St)
     (st : St) (opt : Bytes) (k : Kind) (args : List Bytes) : Except Err (St × List Bytes) :=
   match k with
   | .matchHost =>
-    -- `_match_host`: WildcardPatternList(','.join(args)).matches(self._orig_host)
-    .ok ({ st with matching := patListMatches (joinWith [chComma] args) env.origHost }, [])
+    -- `_match_host`: WildcardPatternList(list(args)).matches(self._orig_host)  (repair of the comma split)
+    .ok ({ st with matching := patListMatchesL args env.origHost }, [])
   | .matchBlock =>
     match matchLoop cfg env st true st.final args with
     | .error e => .error e
